@@ -112,7 +112,7 @@ def run_family(rep, tier, replay, prop, mix, probes, quick, thorough, by_kinds=F
                 if run_out:
                     scr["cmds"].append({"cmd": "run_to_exit"})
                 if cfg.get("attach") and k % 2 == 1:
-                    scr = attach_variant(p, scr)
+                    scr = attach_variant(p, scr, keep_restart=(k % 4 == 3))
                 scripts.append(scr)
             res = sc.run_and_judge(p, scripts, f"{prop}-{p.key}")
             for scr, evs, vs, info in res:
@@ -135,19 +135,30 @@ def run_family(rep, tier, replay, prop, mix, probes, quick, thorough, by_kinds=F
         "programs are the puppets under puppets/sess (deterministic, single-threaded)"])
 
 
-def attach_variant(p, scr):
+def attach_variant(p, scr, keep_restart=False):
     """The same history against an externally started process (real ASLR) that the debugger attaches
     to; the session ends by releasing it (detach or quit), after arming a watchpoint so that the
-    debug-register post-condition is not vacuous."""
-    cmds = []
+    debug-register post-condition is not vacuous.  With `keep_restart` a `restart` of the history is kept:
+    the debugger kills the attached process and launches the program itself - from there on it is a
+    launched program, and the session ends by quitting, which must leave nothing behind."""
+    keep = keep_restart and any(c["cmd"] == "restart" for c in scr["cmds"])
+    cmds, restarted = [], False
     for c in scr["cmds"]:
-        if c["cmd"] in ("restart", "drop", "run_to_exit"):
+        if c["cmd"] == "run_to_exit" or (c["cmd"] in ("restart", "drop") and not keep):
             continue
+        if c["cmd"] == "drop" and not restarted:
+            continue
+        if c["cmd"] == "restart":
+            restarted = True
         if c["cmd"] == "start":
             c = {"cmd": "continue"}
         cmds.append(c)
-    cmds.append({"cmd": "watch_addr", "addr": sesslib.nm_symbols(p.exe)["WATCHME"][0], "size": 8})
-    cmds.append({"cmd": "detach"} if len(cmds) % 2 == 0 else {"cmd": "noop"})
+    if restarted:
+        if cmds[-1]["cmd"] != "drop":
+            cmds.append({"cmd": "drop"})
+    else:
+        cmds.append({"cmd": "watch_addr", "addr": sesslib.nm_symbols(p.exe)["WATCHME"][0], "size": 8})
+        cmds.append({"cmd": "detach"} if len(cmds) % 2 == 0 else {"cmd": "noop"})
     s2 = dict(scr)
     s2["cmds"] = cmds
     s2["attach"] = True
